@@ -25,11 +25,13 @@ NA = {
 CHECKS = {
     "C18": dict(
         category="fault_enumeration",
-        text="Every executed library line (each visit) of first-use build, rebuild after register/unregister/replace, "
-             "retry after an invalid method, and cache-miss resolution is a crash point (interrupt and MemoryError); "
-             "plus every user-hook invocation failing and every rewritten method's source read failing. After each fault, "
-             "all corpus calls and a recovery change are compared with a freshly built function. Complete for the fixed "
-             "worlds (quick), sampled over seeded worlds (thorough).",
+        text="Every executed library line event of first-use build, rebuild after register / unregister / replacement by a twin, "
+             "retry after an invalid method (rejected while adapted, or by argument analysis), rebuild after removing it, and "
+             "cache-miss resolution is a crash point (interrupt and MemoryError), also with an already built linked child; plus every "
+             "user-hook invocation failing and every rewritten method's source read failing. After each fault all corpus calls, a "
+             "further valid registration and a recovery change are compared with freshly built functions. Quick: all visits of all "
+             "core/typemap lines and the first two visits elsewhere on three fixed worlds plus a 1-in-8 sample of 40 seeded families; "
+             "thorough: every visit, bytecode granularity in the publishing functions, seeded families without end.",
         design_ref="DESIGN.md 4/C18",
         note="Trusted: CPython settrace semantics (exception from a line event = interrupt at that line), the fresh-build "
              "reference being the same library, canonical set order via the OVLD_VERIF seam. Faults inside C calls not modelled.",
@@ -39,11 +41,12 @@ CHECKS = {
 
 CHECKS["C19"] = dict(
     category="exploration",
-    text="Two (sampled: three) real caller threads under a baton-passing scheduler; every line event of library, generated "
-         "and world code is a yield point. Quick: every single pre-emption placement (first visit of each line; second visit in "
-         "the build/resolution functions) of either thread in five racing shapes on two fixed worlds, plus seeded worlds under "
-         "placed / PCT / random-walk schedules. Each operation must equal its solo outcome on a fresh function, the function "
-         "must afterwards agree with a fresh build on the whole corpus, no deadlock, bounded steps.",
+    text="Two (sampled: three) real caller threads under a baton-passing scheduler; every line event (sampled runs: every "
+         "bytecode of the publishing functions) of library, generated and world code is a yield point. Quick: every single "
+         "pre-emption placement of either thread in five racing shapes on three fixed worlds, every pair of placements "
+         "(build-check path x entry point / method body / lookup) on one, plus 1600 seeded scenarios under placed / PCT / "
+         "random-walk schedules. Each operation must equal its solo outcome on a fresh function, the function must afterwards "
+         "agree with a fresh build on the whole corpus, no deadlock, bounded steps.",
     design_ref="DESIGN.md 4/C19",
     note="Line granularity under the GIL; library locks replaced by simulated locks so that blocking is a scheduler decision; "
          "free-threaded CPython and pre-emption inside C calls are not modelled. Sampling, not proof.",
